@@ -47,6 +47,8 @@ P = {
          "partial."),
  "C19": ("Theorems (no axioms): for every program over the primitives, and for the whole lexer on every source, a debug-profile run that returns with the loop detector silent is step for step the release-profile run (identical result record). Run-time part: debug/release x feature builds byte-identical on every input, 16-thread shuffled concurrent lexing vs sequential.",
          "partial: threads, allocator, toolchain channel, optimisation level are outside any model and covered by run-time comparison only; nightly toolchain path not exercised."),
+ "C20": ("Theorems (no axioms): the MessagePack reader reads back every well-formed value the writer wrote (all sizes and nesting depths); for every token vector, error vector and literal buffer, decoding the bytes of (tokens, errors, bytes) through the attribute names of the Python Token/Error classes binds each attribute to the Rust field at the same position; the field lists generated from both sides (ResolvedTokenInfo/ErrorInfo of the lexer crate the binding links, token.py, error.py) agree name by name up to the one documented rename, and the Python enum modules list exactly the codes and case-normalised names of the linked crate's enums. Run time: the extension module is built from a scratch copy of the working tree; the enum modules its build script regenerates must be byte-identical to the committed ones; its output on grammar programs and sample files (must return) and on arbitrary strings is read with an independent MessagePack reader through the Python field order, judged by the Python-level contract (tiling by start/stop, line/column/end rules, enum membership, payload ranges), and read/re-written by the extracted Coq reader/writer (byte-identical).",
+         "partial: the lexer inside the binding is the published registry crate (not modelled; panics/hangs on arbitrary strings are counted only); msgspec is not installed offline and is modelled by the positional reader; known finding KF-2 (registry crate's datalines4 terminator defect) is printed as KNOWN-FINDING."),
 }
 
 
